@@ -3,11 +3,17 @@ package proj
 import (
 	"context"
 	"fmt"
+	"math"
 	"math/big"
+	"reflect"
+	"strconv"
 	"strings"
+	"time"
 
 	formula "github.com/aundis/formula"
 	"github.com/ericlagergren/decimal"
+
+	"verif/harness/tlaval"
 )
 
 // Dec projects a *decimal.Big exactly: canonical <<neg, digits, exp>> (no leading or
@@ -26,6 +32,9 @@ func Dec(b *decimal.Big) any {
 	s := new(big.Int).SetBytes(coef).String()
 	return canon(neg, s, int64(exp))
 }
+
+// Canon is the canonical <<neg, digits, exp>> of sign, decimal digit string and exponent.
+func Canon(neg bool, digits string, exp int64) any { return canon(neg, digits, exp) }
 
 func canon(neg bool, digits string, exp int64) any {
 	digits = strings.TrimLeft(digits, "0")
@@ -94,4 +103,131 @@ func DecText(v any) (string, bool) {
 		fmt.Fprintf(&sb, "e%d", exp)
 	}
 	return sb.String(), true
+}
+
+// Value projects a Go value the evaluator hands out into the specification's value
+// domain (FValues.tla). Go ints and floats are numbers, typed nil pointers are null.
+func Value(v interface{}) any {
+	return value(v, 0)
+}
+
+func value(v interface{}, depth int) any {
+	if depth > 12 {
+		return T{"deep"}
+	}
+	switch x := v.(type) {
+	case nil:
+		return T{"null"}
+	case bool:
+		return T{"bool", x}
+	case string:
+		if len(x) > 1<<16 {
+			// too large to project byte by byte; only unpinned results get this big
+			return T{"str", T{"LARGE", int64(len(x))}}
+		}
+		return T{"str", bytesSeq([]byte(x))}
+	case *decimal.Big:
+		if x == nil {
+			return T{"null", true}
+		}
+		return numOf(Dec(x))
+	case time.Time:
+		return T{"time", x.UnixMilli()}
+	case context.Context:
+		return T{"ctx"}
+	}
+	rv := reflect.ValueOf(v)
+	switch rv.Kind() {
+	case reflect.Int, reflect.Int8, reflect.Int16, reflect.Int32, reflect.Int64:
+		return numOf(canon(rv.Int() < 0, strings.TrimLeft(strconv.FormatInt(rv.Int(), 10), "-"), 0))
+	case reflect.Float32, reflect.Float64:
+		f := rv.Float()
+		if math.IsNaN(f) {
+			return T{"nan"}
+		}
+		if math.IsInf(f, 0) {
+			return T{"inf", f < 0}
+		}
+		b, ok := decimal.WithContext(decimal.Context128).SetString(strconv.FormatFloat(f, 'f', -1, 64))
+		if !ok {
+			return T{"badfloat"}
+		}
+		if f == 0 {
+			return numOf(T{false, T{}, int64(0)})
+		}
+		return numOf(Dec(b))
+	case reflect.Uint, reflect.Uint8, reflect.Uint16, reflect.Uint32, reflect.Uint64:
+		return T{"other", "uint"}
+	case reflect.Ptr:
+		if rv.IsNil() {
+			return T{"null", true} // typed nil pointer (FValues.TNil)
+		}
+		if rv.Elem().Kind() == reflect.Struct {
+			return T{"other", "ptrstruct"}
+		}
+		return T{"other", "ptr"}
+	case reflect.Slice, reflect.Array:
+		out := T{}
+		for i := 0; i < rv.Len(); i++ {
+			out = append(out, value(rv.Index(i).Interface(), depth+1))
+		}
+		if rv.Type() != reflect.TypeOf([]interface{}(nil)) {
+			return T{"arr", out, goTypeTag(rv.Type())}
+		}
+		return T{"arr", out}
+	case reflect.Map:
+		if rv.Type().Key().Kind() != reflect.String {
+			return T{"other", "imap"}
+		}
+		m := map[string]any{}
+		it := rv.MapRange()
+		for it.Next() {
+			m[it.Key().String()] = value(it.Value().Interface(), depth+1)
+		}
+		if rv.Type() != reflect.TypeOf(map[string]interface{}(nil)) {
+			return T{"map", m, goTypeTag(rv.Type())}
+		}
+		return T{"map", m}
+	case reflect.Struct:
+		m := map[string]any{}
+		hidden := tlaval.Set{Elems: []any{}}
+		for i := 0; i < rv.NumField(); i++ {
+			f := rv.Type().Field(i)
+			if f.IsExported() {
+				m[f.Name] = value(rv.Field(i).Interface(), depth+1)
+			} else {
+				hidden.Elems = append(hidden.Elems, f.Name)
+			}
+		}
+		return T{"struct", m, hidden}
+	case reflect.Func:
+		return T{"func", T{"ANY"}}
+	}
+	return T{"other", rv.Kind().String()}
+}
+
+func numOf(d any) any {
+	t, ok := d.([]any)
+	if !ok || len(t) != 3 {
+		return d // nan / inf
+	}
+	return T{"num", t[0], t[1], t[2]}
+}
+
+func bytesSeq(b []byte) T {
+	out := make(T, len(b))
+	for i, c := range b {
+		out[i] = int64(c)
+	}
+	return out
+}
+
+func goTypeTag(t reflect.Type) string {
+	switch t.String() {
+	case "[]string":
+		return "strs"
+	case "map[string]int":
+		return "tmapint"
+	}
+	return t.String()
 }
